@@ -3,7 +3,8 @@
 Spec : spec/CqlLex.tla - Cassandra's lexer for identifiers / string literals / whitespace as a
        character-level automaton, the Cassandra 4.x RESERVED keyword list, the reference quoting.
 TLC  : for every name over the alphabet {a A z 0 _ " ' space newline U+00E9 U+1D11E} up to MaxLen
-       (+ all reserved keywords, some unreserved ones, mixed case, the BOOLEAN words) the automaton is run
+       (+ all reserved keywords, some unreserved ones, mixed case, the BOOLEAN words, texts with backslashes:
+       alone, doubled, next to either quote character) the automaton is run
        over Quote(n), MaybeQuote(n), QuoteStr(n) and the raw characters; invariants QuotedReadsBack,
        MaybeReadsBack, StringReadsBack, BareIff, AgreesWithLex.
 Bind : every enumerated name is given to the real protect_name, maybe_escape_name, escape_name
@@ -28,7 +29,8 @@ META = {
     "level_text": "TLC explores the lexer automaton exhaustively over every name/text up to MaxLen characters from an "
                   "alphabet holding one representative of every character class the lexer distinguishes (lower/upper "
                   "letter, digit, underscore, both quote characters, space, newline, a non-ASCII letter, a non-BMP "
-                  "character) plus all 62 reserved keywords, and proves the reference quoting reads back; the driver's "
+                  "character) plus all 62 reserved keywords and texts with backslashes (alone, doubled, next to either quote "
+                  "character: CQL has no backslash escapes), and proves the reference quoting reads back; the driver's "
                   "five quoting functions are then run on every one of these names and each output is accepted or "
                   "rejected by TLC running the same automaton over its characters. Exhaustive over the bounded domain; "
                   "the quoting functions treat characters uniformly within a class, so longer names add no new case "
@@ -41,7 +43,7 @@ META = {
 }
 
 INVARIANTS = ["TypeOK", "QuotedReadsBack", "MaybeReadsBack", "StringReadsBack", "BareIff", "AgreesWithLex"]
-WITNESSES = ["Witness_EscapedQuote", "Witness_ReservedBare", "Witness_NewlineSplits", "Witness_BareKept"]
+WITNESSES = ["Witness_EscapedQuote", "Witness_ReservedBare", "Witness_NewlineSplits", "Witness_BareKept", "Witness_Backslash"]
 
 # function name -> (module, kind of token wanted, may the function leave the name unquoted?)
 FUNCS = {
